@@ -1,6 +1,7 @@
 package drv
 
 import (
+	"encoding/binary"
 	"os"
 	"context"
 	"encoding/base64"
@@ -137,7 +138,20 @@ func RunNtlm(s *NtScript, tw *TraceWriter, rng *rand.Rand, conn *grpc.ClientConn
 			if err != nil {
 				return err
 			}
-			msg = base64.StdEncoding.EncodeToString(nm.Bytes())
+			nb := nm.Bytes()
+			if a["nover"] == true && len(nb) >= 40 {
+				// the version field is optional (MS-NLMP 2.2.1.1): a 32-byte negotiate message without it, as non-Windows
+				// clients send - flag NTLMSSP_NEGOTIATE_VERSION (0x02000000) cleared, empty domain / workstation fields
+				// pointing at offset 32
+				flags := binary.LittleEndian.Uint32(nb[12:16]) &^ 0x02000000
+				short := make([]byte, 32)
+				copy(short, nb[:12])
+				binary.LittleEndian.PutUint32(short[12:16], flags)
+				binary.LittleEndian.PutUint32(short[20:24], 32)
+				binary.LittleEndian.PutUint32(short[28:32], 32)
+				nb = short
+			}
+			msg = base64.StdEncoding.EncodeToString(nb)
 		case "auth":
 			u, pw := str(a, "u", "alice"), str(a, "pw", "right")
 			src := sess
